@@ -1401,6 +1401,83 @@ pub fn run_engine(s: &mut Src, ctx: &mut Ctx) -> Verdict {
 
 // ---------------------------------------------------------------------------
 
+// ---------------------------------------------------------------------------------------------------------------
+// part `precision`: integers that are different but equal once converted to f64
+// ---------------------------------------------------------------------------------------------------------------
+
+/// pairs (x, y), x != y, that an `as f64` conversion maps to one value (above 2^53 the integers are sparser than i64)
+const PRECISION_TWINS: [(i64, i64); 6] = [
+    ((1 << 53), (1 << 53) + 1),
+    ((1 << 53) + 2, (1 << 53) + 3),
+    (i64::MAX, i64::MAX - 1),
+    (-(1 << 53), -(1 << 53) - 1),
+    (1234567890123456789, 1234567890123456788),
+    ((1 << 62), (1 << 62) + 100),
+];
+
+/// Exhaustive (720 cases): memoised evaluation and indexed filtering on fact sets that differ only in such a pair.
+/// choices: pair, comparison operator, which of the two the node / probe names, which set comes first, whether an
+/// index exists before / between / after the inserts.
+pub fn run_precision(s: &mut Src, ctx: &mut Ctx) -> Verdict {
+    let (x, y) = PRECISION_TWINS[s.below(PRECISION_TWINS.len())];
+    let op = ["==", "!=", ">", "<", ">=", "<="][s.below(6)];
+    let named = if s.below(2) == 0 { x } else { y };
+    let first_x = s.below(2) == 0;
+    let index_when = s.below(5);
+    if probe_only() {
+        return Verdict::Pass;
+    }
+    ctx.describe(|| format!("precision twins {} / {}: node (a {} `{}`), first set holds {}, index {}", x, y, op, named, if first_x { x } else { y }, ["never", "before the inserts", "between the inserts", "after the inserts", "created, dropped, created again"][index_when]));
+    let mk = |v: i64| {
+        let mut t = TypedFacts::new();
+        t.set("a", FactValue::Integer(v));
+        t
+    };
+    let (s0, s1) = if first_x { (mk(x), mk(y)) } else { (mk(y), mk(x)) };
+    // memo: the same node on both sets, twice
+    let node = ReteUlNode::UlAlpha(AlphaNode { field: "a".to_string(), operator: op.to_string(), value: named.to_string() });
+    let mut memo = MemoizedEvaluator::new();
+    for (k, set) in [&s0, &s1, &s0, &s1].iter().enumerate() {
+        let direct = node.evaluate_typed(set);
+        let got = memo.evaluate(&node, set, |n, f| n.evaluate_typed(f));
+        if got != direct {
+            return Verdict::fail(
+                "memo-mismatch:precision-twins",
+                format!("evaluation {} of (a {} `{}`) on a = {:?}: memoised {} but evaluate_typed {} (the other set holds an integer that is equal as f64)", k, op, named, set.get("a"), got, direct),
+            );
+        }
+    }
+    // alpha memory: filter by either integer, with and without an index
+    let mut mem = AlphaMemoryIndex::new();
+    if index_when == 1 || index_when == 4 {
+        mem.create_index("a".to_string());
+    }
+    mem.insert(s0.clone());
+    if index_when == 2 {
+        mem.create_index("a".to_string());
+    }
+    if index_when == 4 {
+        mem.drop_index("a");
+    }
+    mem.insert(s1.clone());
+    if index_when == 3 || index_when == 4 {
+        mem.create_index("a".to_string());
+    }
+    for probe in [x, y] {
+        let p = FactValue::Integer(probe);
+        let got: Vec<Option<FactValue>> = mem.filter("a", &p).iter().map(|t| t.get("a").cloned()).collect();
+        let want: Vec<Option<FactValue>> = mem.get_all().iter().filter(|t| t.get("a") == Some(&p)).map(|t| t.get("a").cloned()).collect();
+        if got != want {
+            return Verdict::fail(
+                "alpha-indexed-mismatch:precision-twins",
+                format!("filter(a, {}) returned {:?}; the linear scan with == gives {:?}", probe, got, want),
+            );
+        }
+    }
+    ctx.nontrivial(hash_of(&(x, op, named, first_x, index_when)));
+    Verdict::Pass
+}
+
 pub fn property() -> Property {
     Property {
         id: "C16",
@@ -1417,6 +1494,7 @@ pub fn property() -> Property {
             Part { name: "alpha-exh4", run: run_alpha, quick: Budget::Exhaustive { param: 4 }, thorough: Budget::Exhaustive { param: 4 }, min_nontrivial_pct: 0 },
             Part { name: "alpha-exh5", run: run_alpha, quick: Budget::Exhaustive { param: 5 }, thorough: Budget::Exhaustive { param: 5 }, min_nontrivial_pct: 0 },
             Part { name: "alpha-exh6", run: run_alpha, quick: Budget::Skip, thorough: Budget::Exhaustive { param: 6 }, min_nontrivial_pct: 0 },
+            Part { name: "precision", run: run_precision, quick: Budget::Exhaustive { param: 1 }, thorough: Budget::Exhaustive { param: 1 }, min_nontrivial_pct: 0 },
             Part { name: "beta", run: run_beta, quick: Budget::Random { cases: 2_000_000, bytes: 96 }, thorough: Budget::Random { cases: 30_000_000, bytes: 96 }, min_nontrivial_pct: 8 },
             Part { name: "beta-exh5", run: run_beta, quick: Budget::Exhaustive { param: 5 }, thorough: Budget::Exhaustive { param: 5 }, min_nontrivial_pct: 0 },
             Part { name: "beta-exh6", run: run_beta, quick: Budget::Skip, thorough: Budget::Exhaustive { param: 6 }, min_nontrivial_pct: 0 },
